@@ -28,6 +28,7 @@ ProcessAs(s, e, lp) ==
   ELSE r
 Step(s, e, lp) ==
   IF e.panic # "" THEN <<"panic", Skip>>
+  ELSE IF ~e.bystander_same THEN <<"another-tracker-changed-by-a-call-on-this-one", Skip>>
   ELSE IF e.op = "process" THEN
        LET r == ProcessAs(s, e, lp)
            nlp == IF e.res \in {"ok", "dup"} THEN [ok |-> TRUE, d |-> e.d] ELSE NoLast IN
